@@ -109,8 +109,8 @@ def justify(fv, recv, idx):
             return "J1", ""
         return None, "rank map must be indexed by min(fwd, rev) of KmerGenerator::new(_, self.ksize)"
     al = alloc_of(fv, recv)
-    if al[0] == "call" and al[1].endswith("from_elem"):
-        size = al[3]
+    if zero_vec_len(al, True) is not None:
+        size = zero_vec_len(al, True)
         if size == SF("kcount"):
             ok = is_gu(idx, False) and idx[2] == SF("pos_map") and canonical_of_generator(idx[3], SF("ksize"))
             return ("J2", "") if ok else (None, "a kcount-sized bucket must be indexed by a value loaded from self.pos_map")
